@@ -6,6 +6,12 @@
 // input (fields separated by one space, all numbers hex):
 //
 //	seq <heapBase> <initialPages> <maxPages> <op> <op> ...
+//	sqr <heapBase> <initialPages> <maxPages> <op> <op> ...   same, but the guest may use the WHOLE
+//	                           rounded-up block of every allocation (8 * 2^order bytes, also the slack
+//	                           beyond the requested size): Allocate is called with the sizes as given,
+//	                           the live range for w / r / W / R is the block (the driver checks the
+//	                           property with every request rounded up to its block size, theorem
+//	                           C28_whole_block; C28_request_size_irrelevant: the allocator cannot tell)
 //	op :=  a,<size>            Allocate(mem, size)
 //	       f,<i>,<delta>       Deallocate(mem, ptr_i + delta)   ptr_i = pointer returned by op number i
 //	                           (0 if op i was not a successful allocation); delta signed; u32 wrap
@@ -190,9 +196,10 @@ func c28Run(in string) string {
 			uint64(allocator.PageSize), uint64(allocator.MaxWasmPages), occ, free)
 	}
 	f := strings.Split(in, " ")
-	if len(f) < 4 || f[0] != "seq" {
+	if len(f) < 4 || (f[0] != "seq" && f[0] != "sqr") {
 		return "err:badinput"
 	}
+	wholeBlock := f[0] == "sqr"
 	hb := uint32(vu.UnX(f[1]))
 	mem := &c28Mem{pages: uint32(vu.UnX(f[2])), max: uint32(vu.UnX(f[3])), data: map[uint32]*[c28Chunk]byte{}}
 	heap := allocator.NewFreeingBumpHeapAllocator(hb)
@@ -234,7 +241,14 @@ func c28Run(in string) string {
 			} else {
 				res = "p" + vu.X(uint64(p))
 				ptrs[i] = p
-				live = append([]c28Live{{p, size}}, live...)
+				usable := size
+				if wholeBlock && size <= 33554432 { // the block: next power of two, at least 8
+					usable = 8
+					for usable < size {
+						usable <<= 1
+					}
+				}
+				live = append([]c28Live{{p, usable}}, live...)
 			}
 		case "f":
 			idx := int(vu.UnX(a[1]))
@@ -435,6 +449,13 @@ func c28Gen(r *vu.RNG, n int, emit func(string)) {
 	seq := func(hb uint32, pages, max uint32, ops []string) {
 		emit(fmt.Sprintf("seq %x %x %x %s", hb, pages, max, strings.Join(ops, " ")))
 	}
+	// the guest uses whole blocks, slack included
+	sqr := func(hb uint32, pages, max uint32, ops []string) {
+		emit(fmt.Sprintf("sqr %x %x %x %s", hb, pages, max, strings.Join(ops, " ")))
+	}
+	// slack bytes: requests of 5 / 9 / 21 bytes (blocks 8 / 16 / 32), the last byte of each block and
+	// the whole blocks written, churn, read back
+	sqr(0, 1, 65536, []string{"a,5", "a,9", "a,15", "w,0,7,4d", "w,1,f,58", "W,2,15,b,21", "a,64", "r,1,f", "f,1,0", "a,3", "r,0,7", "R,2,0,20", "W,0,0,8,90", "a,8", "R,0,0,8"})
 	emit("cst")
 	// ---- fixed boundary cases
 	for k := 0; k <= 26; k++ { // every order boundary: size 2^k-1, 2^k, 2^k+1, then reuse after free
@@ -483,7 +504,7 @@ func c28Gen(r *vu.RNG, n int, emit func(string)) {
 	seq(0x80000000, 32768, 65537, []string{"a,8", "a,10", "g,1"})
 
 	for i := 0; i < n; i++ {
-		mode := r.Intn(25)
+		mode := r.Intn(26)
 		switch {
 		case mode < 12: // ordinary mixed sequences
 			pages := uint32(r.Intn(4))
@@ -605,6 +626,27 @@ func c28Gen(r *vu.RNG, n int, emit func(string)) {
 				ops = append(ops, fmt.Sprintf("R,%x,0,%x", j, sizes[j]))
 			}
 			seq(c28HeapBase(r), 1, 65536, ops)
+		case mode < 24 && mode >= 23: // whole blocks: every allocation filled up to its block size (slack included), churn, read back
+			k := 3 + r.Intn(4)
+			var ops []string
+			blocks := make([]int, k)
+			for j := 0; j < k; j++ {
+				sz := 1 + r.Intn(200)
+				b := 8
+				for b < sz {
+					b <<= 1
+				}
+				blocks[j] = b
+				ops = append(ops, "a,"+vu.X(uint64(sz)))
+			}
+			for j := 0; j < k; j++ {
+				ops = append(ops, fmt.Sprintf("W,%x,0,%x,%x", j, blocks[j], r.Intn(256)))
+			}
+			ops = append(ops, c28Ops(r, 4+r.Intn(8), 35)...)
+			for j := 0; j < k; j++ {
+				ops = append(ops, fmt.Sprintf("R,%x,0,%x", j, blocks[j]))
+			}
+			sqr(c28HeapBase(r), 1, 65536, ops)
 		case mode < 22: // exact tiling of the first page(s), reuse of the block that ends at the end of memory
 			hb := uint32(r.Intn(4)) * 8
 			ops := c28ExactFit(hb)
